@@ -24,6 +24,7 @@ SPEC = {
     ],
     "assumptions": ["a block is the publisher's block k iff its header hash and body hash equal those of the publisher's block k (SHA-256 collision freedom)",
                     "what a node accepts from a message does not depend on its own request count / response cap (followers run with 20/20 and with 2-3/4-5; single messages up to 23 blocks with known blocks in front)",
+                    "acceptance depends on consensus rules only, not on the follower's block-creation / pool policy (publisher with 1 MB limits producing ~35 KB blocks; followers with default, stricter and larger policies)",
                     "GiveBlocks messages are processed one at a time (the daemon processes message events on one goroutine)"],
 }
 
